@@ -225,3 +225,62 @@ Proof.
   - rewrite <- Ess. apply crun_next_mono.
   - intros l Hl. rewrite <- Ess. apply (RD2 b l); auto. rewrite Efs. apply in_or_app. right. left. reflexivity.
 Qed.
+
+
+Lemma nth_error_update_eq {A} (l : list A) : forall i x y, nth_error l i = Some y -> nth_error (update i x l) i = Some x.
+Proof. induction l as [|h t IH]; intros [|i] x y H; cbn in *; try discriminate; auto. eapply IH; eauto. Qed.
+
+(* the property over whole histories, load_checkpoint path: save member i after ANY history, continue with ANY history, then
+   member j (ANY member of the population at that time: other architecture, weights, optimizer state, hyper-parameters,
+   possibly the saved member itself rolled back) loads the file: member j then has the view member i had when it was saved,
+   and every other member is the same record as before *)
+Theorem checkpoint_into_history_lemma KS c0 ops1 ops2 i a j t :
+  WF (cw c0) -> all_keys KS c0 -> keys_good KS = true -> files_free c0 ->
+  let c1 := crun c0 ops1 in
+  nth_error (w_pop (cw c1)) i = Some a -> no_hidden a = true -> no_share (a_reg a) = true ->
+  let c2 := crun (cstep c1 (CSave i)) ops2 in
+  nth_error (w_pop (cw c2)) j = Some t -> no_share (a_reg t) = true ->
+  snd (load_checkpoint (snd (save (w_store (cw c1)) a)) (w_store (cw c2), t)) = true ->
+  let c3 := cstep c2 (CLoadInto (length (cw_files c1)) j) in
+  exists r, nth_error (w_pop (cw c3)) j = Some r /\ abs (w_store (cw c3)) r = abs (w_store (cw c1)) a /\
+            (forall k, k <> j -> nth_error (w_pop (cw c3)) k = nth_error (w_pop (cw c2)) k).
+Proof.
+  intros W0 AK KG FF0. cbn zeta. intros Hi NH NS Hj NSt OKc.
+  set (c1 := crun c0 ops1) in *.
+  assert (W1 : WF (cw c1)) by (apply crun_WF_lemma; auto).
+  destruct (crun_files_intact_lemma ops1 c0 W0 FF0) as (FF1 & _ & _). fold c1 in FF1.
+  destruct (reachable_savable_lemma KS c0 ops1 a W0 AK KG (nth_error_In _ _ Hi)) as [SV B]. fold c1 in B.
+  assert (AK1 : all_keys KS c1) by (apply crun_keys_lemma; auto).
+  set (cs := cstep c1 (CSave i)) in *.
+  assert (Ws : WF (cw cs)) by (apply cstep_WF_lemma; auto).
+  assert (FFs : files_free cs) by (apply cstep_files_free_lemma; auto).
+  assert (AKs : all_keys KS cs) by (apply cstep_keys_lemma; auto).
+  assert (Es : cw_files cs = cw_files c1 ++ [snd (save (w_store (cw c1)) a)] /\ w_store (cw cs) = fst (save (w_store (cw c1)) a)).
+  { unfold cs. cbn [cstep]. rewrite Hi. destruct (save (w_store (cw c1)) a) as [s' b]. cbn. auto. }
+  destruct Es as [Efs Ess].
+  set (b := snd (save (w_store (cw c1)) a)) in *.
+  destruct (crun_files_intact_lemma ops2 cs Ws FFs) as (FF2 & RD2 & (e2 & P2)).
+  set (c2 := crun cs ops2) in *.
+  assert (W2 : WF (cw c2)) by (apply crun_WF_lemma; auto).
+  assert (AK2 : all_keys KS c2) by (apply crun_keys_lemma; auto).
+  assert (Hf : nth_error (cw_files c2) (length (cw_files c1)) = Some b).
+  { rewrite P2, Efs, <- app_assoc. rewrite nth_error_app2 by lia. rewrite Nat.sub_diag. reflexivity. }
+  assert (Hb : In b (cw_files c2)) by (eapply nth_error_In; eauto).
+  assert (Ht : In t (w_pop (cw c2))) by (eapply nth_error_In; eauto).
+  cbn [cstep]. rewrite Hf. cbn [cw]. unfold apply_local. rewrite Hj. cbn [w_pop w_store].
+  exists (snd (fst (load_checkpoint b (w_store (cw c2), t)))). split; [|split].
+  - eapply nth_error_update_eq; eauto.
+  - destruct W2 as [ND2 B2].
+    apply (load_checkpoint_save_abs_lemma (w_store (cw c1)) a (w_store (cw c2)) t SV NH NS B); auto.
+    + apply (member_NoDup _ t Ht ND2).
+    + apply Forall_forall. intros l Hl. unfold bounded in B2. rewrite Forall_forall in B2. apply B2.
+      unfold all_locs. apply in_concat. exists (agent_locs t). split; auto. apply in_map; auto.
+    + destruct AK2 as [HP2 _]. destruct AK1 as [HP1 _]. rewrite Forall_forall in HP1, HP2.
+      pose proof (HP2 t Ht) as K2. pose proof (HP1 a (nth_error_In _ _ Hi)) as K1. unfold keys_of in *. congruence.
+    + fold b. rewrite <- Ess. apply crun_next_mono.
+    + fold b. intros l Hl. split.
+      * rewrite <- Ess. apply (RD2 b l); auto. rewrite Efs. apply in_or_app. right. left. reflexivity.
+      * unfold files_free in FF2. rewrite Forall_forall in FF2. destruct (FF2 b Hb l Hl) as [_ Hn].
+        intro H. apply Hn. unfold all_locs. apply in_concat. exists (agent_locs t). split; auto. apply in_map; auto.
+  - intros k Hk. apply nth_error_update_ne. auto.
+Qed.
